@@ -248,6 +248,12 @@ def _entangled_core(g, d1, d2, core, cplx):
         return (np.eye(n) - sw) / (d1 * (d1 - 1))
     if core == "maxent":
         s = np.ones(r) / r
+    elif core.startswith("weak"):
+        # cos t |00> + sin t |11> in drawn local bases, t = 0.002 ... 0.02: lambda_min(PT) = -sin t cos t is far outside
+        # every tolerance, while det(PT) ~ -t^4 and the purity-type quantities are within 1e-8 of a product state's
+        t = float(core.split(":")[1])
+        s = np.zeros(r)
+        s[0], s[1] = np.cos(t) ** 2, np.sin(t) ** 2
     else:
         sr = int(g.integers(2, r + 1))
         s = np.zeros(r)
